@@ -494,7 +494,7 @@ func TestC28(t *testing.T) {
 		return false
 	}
 
-	rt.Check(t, rec, "order", 20000, 500000, func(t *rapid.T) {
+	rt.Check(t, rec, "order", 20000, 1200000, func(t *rapid.T) {
 		models, theme := genPool(t)
 		var pool []item
 		for _, m := range models {
@@ -604,7 +604,7 @@ func TestC28(t *testing.T) {
 	})
 
 	c := newCaller()
-	rt.Check(t, rec, "lookup", 15000, 400000, func(t *rapid.T) {
+	rt.Check(t, rec, "lookup", 15000, 800000, func(t *rapid.T) {
 		// container with some unrelated members
 		isRec := gen.Chance(t, "isrec", 25)
 		var ob core.Container
